@@ -25,6 +25,17 @@ def ent_py(n):
     return ['z', 'a', ('t', 1), 'never'][-n] if -n < 4 else 'x%d' % -n
 
 
+def iid(case, i):
+    """number of instance i (1-based index) in logs and in the Coq case: the
+    instances whose lifecycle callbacks raise during a release are >= 1000"""
+    return i + 1000 if i in case.get('raisers', ()) else i
+
+
+class Marker(Exception):
+    """raised by the callbacks of a 'raiser' instance when the release of
+    postponed events invokes them"""
+
+
 def make_ent_z():
     table = {}
     for n in POOL + NEVER:
@@ -46,16 +57,35 @@ def run(case):
     ent_z = make_ent_z()
     log = []
     world = desper.World()
+    releasing = [False]
+
+    def snoop(entity):
+        # read-only queries from inside a lifecycle callback: they must never
+        # raise (an exception propagates and becomes the operation's outcome)
+        for c in classes[1:]:
+            world.get(c)
+            world.has_component(entity, c)
+            world.get_component(entity, c)
+        world.get_components(entity)
+        world.entity_exists(entity)
+        tuple(world.entities)
+        world.processors
 
     def mk_class(t, kind):
         ns = {}
         if 'a' in kind:
             def on_add(self, entity, w):
                 log.append(['a', self._lid, ent_z(entity), w is world])
+                snoop(entity)
+                if releasing[0] and self._lid >= 1000:
+                    raise Marker()
             ns['on_add'] = on_add
         if 'r' in kind:
             def on_remove(self, entity, w):
                 log.append(['r', self._lid, ent_z(entity), w is world])
+                snoop(entity)
+                if releasing[0] and self._lid >= 1000:
+                    raise Marker()
             ns['on_remove'] = on_remove
         if 'p' in kind:
             def probe(self, tok):
@@ -68,11 +98,12 @@ def run(case):
             c = desper.event_handler(*names)(c)
         return c
 
-    classes = [None] + [mk_class(t + 1, k) for t, k in enumerate(case['kinds'])]
+    classes = [None]
+    classes += [mk_class(t + 1, k) for t, k in enumerate(case['kinds'])]
     insts = [None]
     for i, t in enumerate(case['cls']):
         o = classes[t]()
-        o._lid = i + 1
+        o._lid = iid(case, i + 1)
         insts.append(o)
     lid = {id(o): o._lid for o in insts[1:]}
 
@@ -103,7 +134,7 @@ def run(case):
                                     for c in world.get_components(ent_py(q[1]))]]
         o = insts[q[1]]
         r = hasattr(o, '__events__') and bool(world.is_handler(o))
-        return ['ish', q[1], r]
+        return ['ish', o._lid, r]
 
     def rows():
         return {e: len(world.get_components(ent_py(e))) > 0 for e in known_ids}
@@ -140,13 +171,19 @@ def run(case):
             elif o[0] == 'clear':
                 world.clear()
             elif o[0] == 'enable':
-                world.dispatch_enabled = bool(o[1])
+                releasing[0] = bool(o[1])
+                try:
+                    world.dispatch_enabled = bool(o[1])
+                finally:
+                    releasing[0] = False
             elif o[0] == 'probe':
                 world.dispatch('probe', o[1])
             elif o[0] == 'addproc':
                 world.add_processor(P())
             else:
                 raise ValueError('bad op %r' % (o,))
+        except Marker:
+            exc = 3
         except KeyError as ex:
             exc = 1
             if o[0] == 'process':
@@ -183,12 +220,12 @@ def enc_kind(k):
         b(bool(k)), b('a' in k), b('r' in k), b('p' in k))
 
 
-def enc_op(o):
+def enc_op(o, im=lambda i: i):
     if o[0] == 'create':
         return '(Create %s %s)' % (opt(None if o[1] is None else z(o[1])),
-                                   lst([z(i) for i in o[2]]))
+                                   lst([z(im(i)) for i in o[2]]))
     if o[0] == 'add':
-        return '(Add %s %s)' % (z(o[1]), z(o[2]))
+        return '(Add %s %s)' % (z(o[1]), z(im(o[2])))
     if o[0] == 'remove':
         return '(Remove %s %s)' % (z(o[1]), z(o[2]))
     if o[0] == 'delete':
@@ -222,12 +259,12 @@ BAD_TRACE = '[(Process, mkobs None 2 [] [] [])]'
 
 def encode(case, trace):
     params = '{| p_cls := %s; p_kinds := %s |}' % (
-        lst(['(%s, %s)' % (z(i + 1), z(t)) for i, t in enumerate(case['cls'])]),
+        lst(['(%s, %s)' % (z(iid(case, i + 1)), z(t)) for i, t in enumerate(case['cls'])]),
         lst(['(%s, %s)' % (z(t + 1), enc_kind(k)) for t, k in enumerate(case['kinds'])]))
     if 'obs' not in trace or len(trace['obs']) != len(case['ops']):
         tr = BAD_TRACE                      # hang / crash: an unacceptable trace
     else:
-        tr = lst(['(%s, %s)' % (enc_op(o), enc_obs(ob))
+        tr = lst(['(%s, %s)' % (enc_op(o, lambda i: iid(case, i)), enc_obs(ob))
                   for o, ob in zip(case['ops'], trace['obs'])])
     return '{| c_p := %s; c_tr := %s |}' % (params, tr)
 
@@ -280,6 +317,13 @@ def gen_case(rng, nops_max=25, focus=None):
     ninst = rng.randint(3, 10)
     cls = [rng.randint(1, nk) for _ in range(ninst)]
     case = dict(kinds=kinds, cls=cls, ops=[], qseed=rng.randrange(1 << 30))
+    # 30 %: one or two instances whose on_add / on_remove raise when the release
+    # of postponed events delivers them (no clear(), no postponed probes there)
+    raise_mode = rng.random() < 0.3
+    if raise_mode:
+        cand = [i for i in range(1, ninst + 1) if set('ar') & set(kinds[cls[i - 1] - 1])]
+        if cand:
+            case['raisers'] = sorted(rng.sample(cand, min(len(cand), rng.randint(1, 2))))
     ref = Ref(case)
     ops = case['ops']
     hot = None                      # entity with a recent deferred delete
@@ -349,7 +393,7 @@ def gen_case(rng, nops_max=25, focus=None):
                 ref.dead.clear()
             hot = None
         elif r < 0.82:                                  # clear: never while disabled (K1)
-            if not ref.enabled:
+            if not ref.enabled or raise_mode:
                 continue
             ops.append(['clear'])
             ref.att.clear()
@@ -359,11 +403,13 @@ def gen_case(rng, nops_max=25, focus=None):
         elif r < 0.92:
             ref.enabled = not ref.enabled if rng.random() < 0.9 else ref.enabled
             ops.append(['enable', ref.enabled])
+            if raise_mode and ref.enabled and rng.random() < 0.6:
+                ops.append(['enable', True])      # delivers what an interrupted release left
         elif r < 0.98:
             # a probe while disabled only when somebody listens (else C04 leaves
             # open whether it is queued)
             listeners = [i for i in ref.attached() if 'p' in kinds[cls[i - 1] - 1]]
-            if not ref.enabled and not listeners:
+            if not ref.enabled and (not listeners or raise_mode):
                 continue
             tok += 1
             ops.append(['probe', tok])
